@@ -7,7 +7,7 @@
    functions, so termination is part of each statement; the one loop whose
    termination is not structural (dns.readName, which may jump backwards through
    compression pointers) has its own termination theorems. *)
-From CJ Require Import Common.Base C11.Model C11.ProofsMsg C11.ProofsFlight C11.ProofsDns C11.ProofsDown C11.ProofsStats.
+From CJ Require Import Common.Base C11.Model C11.ProofsMsg C11.ProofsFlight C11.ProofsDns C11.ProofsDown C11.ProofsStats C11.ProofsHdr.
 
 (* ---- transports: ParseParams / GetDstPort of min, obfs4, prefix, dtls *)
 Theorem C11_entry_total_no_panic_parse_params :
@@ -198,3 +198,23 @@ Theorem C11_stats_epoch_safe_regions_no_panic :
     forallb safe_thread ts = true -> exists s', run_all sched ts s = Ok s'.
 Proof. exact run_all_safe_ok. Qed.
 Print Assumptions C11_stats_epoch_safe_regions_no_panic.
+
+(* ---- fourth wave, HTTP header dimension: the precondition wf_req of the two status theorems is discharged for
+   the concrete strings.Split -- for ANY raw X-Forwarded-For header values (absent, empty, separators only, any
+   number of items, any number of header lines, any bytes) and whatever ParseIP makes of the items *)
+Theorem C11_http_always_status_raw_headers_unidirectional :
+  forall cfg o r (classify : bytes -> option bytes) (values : list bytes),
+    wf_rpcfg cfg -> is_status (handle_register cfg o (set_xff r (xff_items classify values))).
+Proof. exact handle_register_status_raw. Qed.
+Print Assumptions C11_http_always_status_raw_headers_unidirectional.
+
+Theorem C11_http_always_status_raw_headers_bidirectional :
+  forall cfg o srv_gen r (classify : bytes -> option bytes) (values : list bytes),
+    wf_rpcfg cfg -> wf_rporacle o -> is_status (handle_register_bidi cfg o srv_gen (set_xff r (xff_items classify values))).
+Proof. exact handle_register_bidi_status_raw. Qed.
+Print Assumptions C11_http_always_status_raw_headers_bidirectional.
+
+Theorem C11_header_split_never_empty :
+  forall sep s, go_split sep s <> [] /\ length (go_split sep s) = S (count_sep sep s).
+Proof. exact go_split_shape. Qed.
+Print Assumptions C11_header_split_never_empty.
